@@ -88,15 +88,23 @@ def op_process(c):
         import tempfile, os, io, contextlib
 
         def go():
-            fd, path = tempfile.mkstemp(suffix='.json')
-            with os.fdopen(fd, 'wb') as f:
-                # a JSON file is UTF-8: either with every non-ASCII character escaped, or (raw_utf8) written as it is
-                f.write(json.dumps(c['doc'], ensure_ascii=not c.get('raw_utf8')).encode('utf-8'))
+            # the file is reached through a path that only the file system can interpret: <dir>/link/../doc.json where `link` is a
+            # symbolic link to <dir>/real/sub - i.e. <dir>/real/doc.json; the textually shortened <dir>/doc.json is another document
+            import shutil
+            top = tempfile.mkdtemp(prefix='dznverif_path_')
             try:
+                os.makedirs(os.path.join(top, 'real', 'sub'))
+                os.symlink(os.path.join('real', 'sub'), os.path.join(top, 'link'))
+                with open(os.path.join(top, 'real', 'doc.json'), 'wb') as f:
+                    # a JSON file is UTF-8: either with every non-ASCII character escaped, or (raw_utf8) written as it is
+                    f.write(json.dumps(c['doc'], ensure_ascii=not c.get('raw_utf8')).encode('utf-8'))
+                with open(os.path.join(top, 'doc.json'), 'w') as f:
+                    f.write('{"<class>": "root", "elements": [{"<class>": "import", "name": "decoy.dzn"}], "working-directory": "/"}')
+                path = os.path.join(top, 'link', '..', 'doc.json')
                 with contextlib.redirect_stdout(io.StringIO()):
                     return u_fc(DznJsonAst(verbose=bool(c.get('verbose'))).load_file(path).process())
             finally:
-                os.unlink(path)
+                shutil.rmtree(top, ignore_errors=True)
         return res(go)
     # (verbose progress output for every other document: it never influences the result)
     global _nprocess
@@ -129,6 +137,8 @@ def op_history(c):
 
 def _history(c, insts, out, kept, shared_path):
     import os
+    failures = []          # the caller keeps the exceptions of failed loads (as a log would)
+    fds_before = len(os.listdir('/proc/self/fd')) if os.path.isdir('/proc/self/fd') else 0
     for op in c['ops']:
         if op[0] == 'new':
             insts.append(DznJsonAst(None if op[1] is None else json.dumps(op[1])))
@@ -147,6 +157,7 @@ def _history(c, insts, out, kept, shared_path):
                 insts[op[1]].load_file(shared_path)
                 out.append(['load-returned'])
             except Exception as e:  # noqa
+                failures.append(e)
                 out.append(['load-raised', type(e).__name__])
         elif op[0] == 'edit':
             # the caller edits the decoded document its parser holds (public property `ast`): keep the first element only
@@ -175,7 +186,9 @@ def _history(c, insts, out, kept, shared_path):
         for b in range(a + 1, len(obs)):
             if obs[a][1] == obs[b][1] and not (obs[a][2] == obs[b][2]) and len(not_eq) < 3:
                 not_eq.append([obs[a][0], obs[b][0]])
-    return {'results': out, 'changed_later': late, 'same_declarations_but_not_equal': not_eq}
+    fds_after = len(os.listdir('/proc/self/fd')) if os.path.isdir('/proc/self/fd') else 0
+    return {'results': out, 'changed_later': late, 'same_declarations_but_not_equal': not_eq,
+            'files_left_open': max(0, fds_after - fds_before), 'failed_loads_kept': len(failures)}
 
 
 main({'process': op_process, 'parse_event': op_parse_event, 'history': op_history})
